@@ -375,6 +375,19 @@ func minimiseAndWrite(e Engine, r *Run, v *Violation, cfg map[string]string, kno
 	}
 	// sanity: replaying the original list must reproduce, otherwise report it unminimised
 	if try(orig) {
+		// 0k. per-run knobs first (run length, number of actors ...): halve, then zero
+		for i := 0; i < len(best) && i < len(bestRec); i++ {
+			if !strings.HasPrefix(bestRec[i].L, "knob.") || best[i] == 0 {
+				continue
+			}
+			cand := append([]int{}, best...)
+			cand[i] = 0
+			if !try(cand) && best[i] > 1 {
+				cand = append([]int{}, best...)
+				cand[i] = best[i] / 2
+				try(cand)
+			}
+		}
 		// 0a. switch off single operations in place (no later draw moves), last to first, twice
 		for pass := 0; pass < 2; pass++ {
 			for i := len(best) - 1; i >= 0; i-- {
